@@ -209,11 +209,14 @@ func runProperty(P *Program, pf *PropFile, findings *FindingsFile, timeout int, 
 					return
 				}
 				real := func(o *obligation) bool { return o.Kind != "smoke" && o.Kind != "canary" && o.Kind != "finding" }
+				// Every obligation of every function involved is discharged and reported: the globs of the
+				// property file only decide which clauses are pinned (must keep being generated). A function
+				// that is relied on with one broken clause is not a sound basis for the clauses that still prove.
 				selected := func(o *obligation) bool {
 					if dep {
 						return real(o)
 					}
-					return !real(o) || matchAny(pf.Obligations, o.Name)
+					return true
 				}
 				// round 1: every obligation of the function (a failed assertion is assumed afterwards, so an
 				// unrelated failure could make this property's obligations pass vacuously)
